@@ -82,7 +82,7 @@ def cfg_text(name, depth, dev=None, export=False):
 
 PROFILES = {
     "C03": [("decode", 1200, 6000), ("general", 150, 1500), ("rebase", 150, 1000)],
-    "C06": [("general", 400, 3000), ("labels", 400, 3000)],
+    "C06": [("general", 400, 3000), ("labels", 400, 3000), ("far", 1, 3)],
     "C07": [("straight", 300, 2500), ("general", 100, 800)],
     "C15": [("general", 400, 3000)],
     "C16": [("general", 400, 3000), ("labels", 300, 2000)],
@@ -231,7 +231,8 @@ def run(prop, tier, replay):
         for e in samples:
             if len(ck.cov["samples"]) < 6 and e["k"] in ("call", "finalize", "hex", "cpu", "decode", "append"):
                 s = {k: e[k] for k in e if k in ("k", "m", "a", "refused", "bytes", "err", "which", "fetches", "pri", "id", "n", "addr", "flags")}
-                ck.sample(s)
+                if len(json.dumps(s)) < 3000:
+                    ck.sample(s)
     ck.cov["traces_validated_against_impl"] = total_sc
     ck.cov["evaluations"] += total_ev
     ck.cov["distinct_nontrivial"] += total_ev
